@@ -12,6 +12,14 @@ EXTRA = [
     "select a from t1 where b = (select min(c) from t2) or a = 1",
     "select a from t1 where not exists (select * from t2 where t2.a = t1.a) and b > 0",
     "select a from t1 where a not in (select a from t2 where a is not null)",
+    # equalities mixing both sides of a (semi/anti/inner/outer) join condition
+    "select a from t1 where not exists (select * from t2 where t2.a = t1.a and t1.b = t1.a * t2.c)",
+    "select a from t1 where exists (select * from t2 where t2.a = t1.a and t1.b = t1.a * t2.c)",
+    "select a from t1 where not exists (select * from t2 where t2.a = t1.a and t1.b + t2.c = t2.a)",
+    "select a from t1 where a in (select a from t2 where t1.b * t2.c = t1.a)",
+    "select t1.a from t1 join t2 on t1.a = t2.a and t1.b = t1.a * t2.c",
+    "select t1.a from t1 left join t2 on t1.a = t2.a and t1.b * t2.c = t2.a",
+    "select t1.a from t1 join t2 on t1.a * t2.a = t1.b and t2.c = t1.a join t3 on t3.a = t1.a * t2.a",
     # window functions
     "select a, row_number() over (order by a) from t1",
     "select a, sum(b) over (partition by a) from t1",
